@@ -22,62 +22,65 @@ theorem frameRaw_eq_runAtoms (cfg : Cfg) (s : State) (t : Nat) (ls : List Line) 
     | cons l ls ih => intro s; simp only [rxLines, List.map, runAtoms, stepAtom, ih]
   simp only [frameRaw, frameAtoms, runAtoms, stepAtom, h]
 
-/-- the debounce step that changes the identified station: one NETWORK event, cache flushed -/
-theorem cniRx_switch_facts (lk : Lookup) (c : Carrier) (v : Nat) (s : State) (h : v = cniOf c s.net) (h2 : s.net.cycle = 1)
-    (h3 : (lk c v).1 ≠ s.net.nuid) (h4 : s.net.nuid ≠ 0) (h5 : (lk c v).1 ≠ 0) :
-    countNetwork (cniRx lk c v s).2 = 1 ∧
-    (∀ n, (Ev.network n ∈ (cniRx lk c v s).2 ∨ Ev.networkId n ∈ (cniRx lk c v s).2) →
-       n.nuid = (lk c v).1 ∧ cniOf c n = v) ∧
-    (cniRx lk c v s).1.cached = [] ∧ (cniRx lk c v s).1.net.nuid = (lk c v).1 ∧ (cniRx lk c v s).1.net.cycle = 2 ∧
-    cniOf c (cniRx lk c v s).1.net = v := by
-  rw [cniRx_switch lk c v s h h2 h3 h4 h5]
-  refine ⟨?_, ?_, rfl, rfl, rfl, ?_⟩
+/-- the debounce step that changes the identified station: one NETWORK event, cache flushed.  With the callers
+    passing "identified" (F35 repaired) this covers a CNI missing from the table as well. -/
+theorem cniRx_switch_facts (cfg : Cfg) (c : Carrier) (v : Nat) (s : State) (h : v = cniOf c s.net) (h2 : pending cfg c s)
+    (h3 : (cfg.lk c v).1 ≠ s.net.nuid) (h4 : s.net.nuid ≠ 0) (h5 : cfg.chswIdent = true ∨ (cfg.lk c v).1 ≠ 0) :
+    countNetwork (cniRx cfg c v s).2 = 1 ∧
+    (∀ n, (Ev.network n ∈ (cniRx cfg c v s).2 ∨ Ev.networkId n ∈ (cniRx cfg c v s).2) →
+       n.nuid = (cfg.lk c v).1 ∧ cniOf c n = v) ∧
+    (cniRx cfg c v s).1.cached = [] ∧ (cniRx cfg c v s).1.net.nuid = (cfg.lk c v).1 ∧ ¬ pending cfg c (cniRx cfg c v s).1 ∧
+    cniOf c (cniRx cfg c v s).1.net = v := by
+  rw [cniRx_switch cfg c v s h h2 h3 h4 h5]
+  refine ⟨?_, ?_, by rw [markDone_cached], by rw [markDone_nuid], markDone_not_pending _ _ _ _, ?_⟩
   · by_cases ha : s.aspectSource > 0 <;> simp [countNetwork, ha] <;> rfl
   · intro n hn
-    have : n = { s.net with name := lkName lk c v, nuid := (lk c v).1 } := by
+    have : n = { s.net with name := lkName cfg c v, nuid := (cfg.lk c v).1 } := by
       by_cases ha : s.aspectSource > 0 <;> simp [ha] at hn <;> first | exact hn | exact hn.elim id id
     rw [this]
     exact ⟨rfl, by rw [h]; cases c <;> rfl⟩
-  · simp only [cniOf_name_nuid_cycle]; exact h.symm
+  · simp only [markDone_cniOf, cniOf_name_nuid]; exact h.symm
 
-/-- events of the debounce carry the received value and the table's answer (all cases except
-    "identified station replaced by an unknown CNI", F17) -/
-theorem cniRx_faithful (lk : Lookup) (c : Carrier) (v : Nat) (s : State)
-    (hx : ¬ ((lk c v).1 = 0 ∧ s.net.nuid ≠ 0)) (n : Network)
-    (hn : Ev.network n ∈ (cniRx lk c v s).2 ∨ Ev.networkId n ∈ (cniRx lk c v s).2) :
-    cniOf c n = v ∧ n.nuid = (lk c v).1 ∧ n.name = lkName lk c v ∧ cniOf c s.net = v ∧ s.net.cycle = 1 := by
+/-- events of the debounce carry the received value and the table's answer: all cases once the callers pass
+    "identified" (F35 repaired); before, all cases except "identified station replaced by an unknown CNI" -/
+theorem cniRx_faithful (cfg : Cfg) (c : Carrier) (v : Nat) (s : State)
+    (hx : cfg.chswIdent = true ∨ ¬ ((cfg.lk c v).1 = 0 ∧ s.net.nuid ≠ 0)) (n : Network)
+    (hn : Ev.network n ∈ (cniRx cfg c v s).2 ∨ Ev.networkId n ∈ (cniRx cfg c v s).2) :
+    cniOf c n = v ∧ n.nuid = (cfg.lk c v).1 ∧ n.name = lkName cfg c v ∧ cniOf c s.net = v ∧ pending cfg c s := by
   by_cases h : v = cniOf c s.net
-  · by_cases h2 : s.net.cycle = 1
-    · by_cases h3 : (lk c v).1 = s.net.nuid
-      · rw [cniRx_same lk c v s h h2 h3] at hn
+  · by_cases h2 : pending cfg c s
+    · by_cases h3 : (cfg.lk c v).1 = s.net.nuid
+      · rw [cniRx_same cfg c v s h h2 h3] at hn
         simp at hn
         rw [hn]
         exact ⟨by rw [h]; cases c <;> rfl, h3.symm, rfl, h.symm, h2⟩
       · by_cases h4 : s.net.nuid = 0
-        · rw [cniRx_first lk c v s h h2 h3 h4] at hn
-          have : n = { s.net with name := lkName lk c v, nuid := (lk c v).1 } := by
+        · rw [cniRx_first cfg c v s h h2 h3 h4] at hn
+          have : n = { s.net with name := lkName cfg c v, nuid := (cfg.lk c v).1 } := by
             simp at hn; first | exact hn | exact hn.elim id id
           rw [this]
           exact ⟨by rw [h]; cases c <;> rfl, rfl, rfl, h.symm, h2⟩
-        · by_cases h5 : (lk c v).1 = 0
-          · exact absurd ⟨h5, h4⟩ hx
-          · have f := cniRx_switch_facts lk c v s h h2 h3 h4 h5
-            have g := f.2.1 n hn
-            refine ⟨g.2, g.1, ?_, h.symm, h2⟩
-            rw [cniRx_switch lk c v s h h2 h3 h4 h5] at hn
-            have : n = { s.net with name := lkName lk c v, nuid := (lk c v).1 } := by
-              by_cases ha : s.aspectSource > 0 <;> simp [ha] at hn <;> first | exact hn | exact hn.elim id id
-            rw [this]
-    · rw [cniRx_idle lk c v s h h2] at hn; simp at hn
-  · rw [cniRx_change lk c v s h] at hn; simp at hn
+        · have h5 : cfg.chswIdent = true ∨ (cfg.lk c v).1 ≠ 0 := by
+            rcases hx with hx | hx
+            · exact Or.inl hx
+            · exact Or.inr (fun e => hx ⟨e, h4⟩)
+          have f := cniRx_switch_facts cfg c v s h h2 h3 h4 h5
+          have g := f.2.1 n hn
+          refine ⟨g.2, g.1, ?_, h.symm, h2⟩
+          rw [cniRx_switch cfg c v s h h2 h3 h4 h5] at hn
+          have : n = { s.net with name := lkName cfg c v, nuid := (cfg.lk c v).1 } := by
+            by_cases ha : s.aspectSource > 0 <;> simp [ha] at hn <;> first | exact hn | exact hn.elim id id
+          rw [this]
+    · rw [cniRx_idle cfg c v s h h2] at hn; simp at hn
+  · rw [cniRx_change cfg c v s h] at hn; simp at hn
 
-/-- F17 in the model: replacing an identified station by an unknown CNI raises NETWORK twice and wipes the
-    stored CNIs, so the NETWORK_ID that follows carries 0 instead of the received value -/
-theorem cniRx_unknown_facts (lk : Lookup) (c : Carrier) (v : Nat) (s : State) (h : v = cniOf c s.net) (h2 : s.net.cycle = 1)
-    (h4 : s.net.nuid ≠ 0) (h5 : (lk c v).1 = 0) :
-    countNetwork (cniRx lk c v s).2 = 2 ∧ Ev.networkId {} ∈ (cniRx lk c v s).2 ∧ cniOf c (cniRx lk c v s).1.net = 0 := by
-  rw [cniRx_unknown lk c v s h h2 h4 h5]
-  refine ⟨?_, ?_, by simp [cniOf_empty]⟩
+/-- F35 (was F17) in the model, unrepaired call shape: replacing an identified station by an unknown CNI raises
+    NETWORK twice and wipes the stored CNIs, so the NETWORK_ID that follows carries 0 instead of the received value -/
+theorem cniRx_unknown_facts (cfg : Cfg) (c : Carrier) (v : Nat) (s : State) (h : v = cniOf c s.net) (h2 : pending cfg c s)
+    (h4 : s.net.nuid ≠ 0) (h5 : (cfg.lk c v).1 = 0) (hI : cfg.chswIdent = false) :
+    countNetwork (cniRx cfg c v s).2 = 2 ∧ Ev.networkId {} ∈ (cniRx cfg c v s).2 ∧ cniOf c (cniRx cfg c v s).1.net = 0 := by
+  rw [cniRx_unknown cfg c v s h h2 h4 h5 hI]
+  refine ⟨?_, ?_, by simp [markDone_cniOf, cniOf_empty]⟩
   · by_cases ha : s.aspectSource > 0 <;> simp [countNetwork, ha] <;> rfl
   · simp
 
@@ -93,27 +96,29 @@ theorem mem_extra_of_network {q extra : List Ev} (hex : ∀ e ∈ extra, Ev.isEx
 
 /-! ## PROG_ID, LOCAL_TIME -/
 
-theorem cniRx_no_extra (lk : Lookup) (c : Carrier) (v : Nat) (s : State) : ∀ e ∈ (cniRx lk c v s).2, Ev.isExtra e = false := by
-  simp only [cniRx, announce, chswReset]
-  repeat' split
-  all_goals (intro e he; simp at he; try (rcases he with x | x | x | x) <;> simp_all [Ev.isExtra])
+theorem cniRx_no_extra (cfg : Cfg) (c : Carrier) (v : Nat) (s : State) : ∀ e ∈ (cniRx cfg c v s).2, Ev.isExtra e = false := by
+  apply cniRx_cases cfg c v s (fun r => ∀ e ∈ r.2, Ev.isExtra e = false)
+  all_goals intros
+  all_goals (rename_i e he; simp at he; try (rcases he with x | x | x | x) <;> simp_all [Ev.isExtra])
 
-theorem rxVps_progId (lk : Lookup) (s : State) (b : Buf) (p : Pid) (h : Ev.progId p ∈ (rxVps lk s b).2) :
-    p = decodeVpsPdc b ∧ s.vpsPid = decodeVpsPdc b ∧ decodeVpsCni b = s.net.cniVps := by
+theorem announce_vpsPid (cfg : Cfg) (c : Carrier) (v : Nat) (s : State) : (announce cfg c v s).1.vpsPid = s.vpsPid := by
   have vp : ∀ (s : State) (id : Nat), (chswReset s id).1.vpsPid = s.vpsPid := by
     intro s id; simp only [chswReset]; repeat' split
     all_goals simp
-  have ne := cniRx_no_extra lk .vps (decodeVpsCni b) s
+  simp only [announce]
+  repeat' split
+  all_goals simp [vp, markDone_vpsPid]
+
+theorem rxVps_progId (cfg : Cfg) (s : State) (b : Buf) (p : Pid) (h : Ev.progId p ∈ (rxVps cfg s b).2) :
+    p = decodeVpsPdc b ∧ s.vpsPid = decodeVpsPdc b ∧ decodeVpsCni b = s.net.cniVps := by
+  have ne := cniRx_no_extra cfg .vps (decodeVpsCni b) s
   unfold rxVps at h
   by_cases h1 : decodeVpsCni b = s.net.cniVps
-  · by_cases h2 : s.net.cycle = 1
-    · have q : cniRx lk .vps (decodeVpsCni b) s = announce lk .vps (decodeVpsCni b) s := by
+  · by_cases h2 : pending cfg .vps s
+    · have q : cniRx cfg .vps (decodeVpsCni b) s = announce cfg .vps (decodeVpsCni b) s := by
         simp [cniRx, cniOf, h1, h2]
       rw [q] at ne
-      have pv : (announce lk .vps (decodeVpsCni b) s).1.vpsPid = s.vpsPid := by
-        simp only [announce]
-        repeat' split
-        all_goals simp [vp]
+      have pv := announce_vpsPid cfg .vps (decodeVpsCni b) s
       simp only [h1, h2, ne_eq, not_true_eq_false, if_false, if_true] at h
       rw [← h1] at h
       split at h
